@@ -46,6 +46,13 @@ def run(chk):
         rep = vlib.run_vh(args, [r.out], procs=4)
         chk.add_report(name, rep)
         chk.classify("conc", args, rep)
+    # a slow worker is a schedule as well: the last worker step of a forced schedule is granted seconds late
+    # (the answer must still be complete: no timeout may stand in for a worker's chunk)
+    for hold, lim in (((1500, 8),) if quick else ((1500, 16), (6000, 8))):
+        args = ["replay", "conc", "--hold-ms", str(hold), "--limit", str(lim)]
+        rep = vlib.run_vh(args, [r.out], procs=min(lim, 8))
+        chk.add_report(f"slow-worker-{hold}ms", rep)
+        chk.classify("conc", args, rep)
     # 3. impl -> spec: recorded random queries under random delays
     n = 300 if quick else 3000
     trace = chk.workdir / "queries.ndjson"
